@@ -216,3 +216,27 @@ def strip_marks(e):
 def unparse(ast, full=False, rng=None, decorate=0.0, elseless=True, infix=True):
     u = Unparser(full=full, rng=rng, elseless=elseless, infix=infix)
     return join(u.top(ast) if ast['t'] == 'Top' else u.expr(ast, toplevel=True), rng, decorate)
+
+
+def tokens_of(ast, full=False, elseless=True, infix=True):
+    u = Unparser(full=full, elseless=elseless, infix=infix)
+    return u.top(ast) if ast['t'] == 'Top' else u.expr(ast, toplevel=True)
+
+
+import re as _re
+_FIXED = {'begin', 'end', 'if', 'then', 'else', 'let', 'null', 'print', 'object', 'extends', 'while', 'do', 'function', 'array', 'true', 'false',
+          ';', '(', ')', '=', '<-', '->', '.', '[', ']', ',', '|', '&', '==', '!=', '>', '<', '>=', '<=', '+', '-', '/', '*', '%'}
+
+
+def classify(tok):
+    """token text -> the token record FMLParser reads (None if the text is not a single token of the language)"""
+    if len(tok) >= 2 and tok[0] == '"' and tok[-1] == '"':
+        return {'k': 'str', 's': '', 'v': 0, 'b': list(tok[1:-1].encode('utf-8'))}
+    if _re.match(r'^-?[0-9]+$', tok):
+        v = int(tok)
+        return {'k': 'num', 's': '' if -2**31 <= v < 2**31 else 'big', 'v': v if -2**31 <= v < 2**31 else 0, 'b': []}
+    if tok in _FIXED:
+        return {'k': tok, 's': '', 'v': 0, 'b': []}
+    if _re.match(r'^[_A-Za-z][_A-Za-z0-9]*$', tok):
+        return {'k': 'id', 's': tok, 'v': 0, 'b': []}
+    return None
